@@ -201,8 +201,8 @@ Print Assumptions C07_mprocess_layout_equal_counts_exchanged.
 
 (* ---- embedding a qutrit operation into two qubits:  X |-> Pi (X (+) c I) Pi^T  with the permutation Pi built by
    _permutation_matrix_from_qutrits_to_qubits ([emb_perm]) and c = 0 (states), 1/m (POVM elements), 1/sqrt(#Kraus) (Kraus matrices).
-   All statements hold for every block size n3, padding k and every bijection s (t its inverse); [emb_perm n] is one for
-   n = 1, 2, 3 qutrits (by evaluation; not proved for every n). *)
+   All statements hold for every block size n3, padding k and every bijection s (t its inverse); [emb_perm n] is one for EVERY
+   number n of qutrits (C07_embed_perm_bijective). *)
 From QV.Core Require Import Psd.
 From QV.Model Require Import C07_Embed.
 From QV.Proofs Require Import C07_Embed.
@@ -240,6 +240,22 @@ Theorem C07_embed_tp : forall (R : CR) n3 k s t c' c (l : list (@mat R * @mat R)
   meq (n3 + k) (n3 + k) (sum_prod (n3 + k) (map (fun p => (embed_fast n3 s c' (fst p), embed_fast n3 s c (snd p))) l)) mid.
 Proof. intros R. exact (@embed_tp R). Qed.
 Print Assumptions C07_embed_tp.
+(* instruments: one Kraus list PER OUTCOME, of any (possibly different) lengths: it is the TOTAL number of Kraus operators over all
+   outcomes that enters the condition  m c' c = 1  (MProcess._embed...: c' = c = 1 / sqrt(total Kraus count)) ... *)
+Theorem C07_embed_tp_instrument : forall (R : CR) n3 k s t c' c (ls : list (list (@mat R * @mat R))), bij (n3 + k) s t ->
+  meq n3 n3 (sum_prod n3 (concat ls)) mid -> nsum (list_sum (map (@length _) ls)) (cmul R c' c) = c1 R ->
+  meq (n3 + k) (n3 + k)
+    (sum_prod (n3 + k) (concat (map (map (fun p => (embed_fast n3 s c' (fst p), embed_fast n3 s c (snd p)))) ls))) mid.
+Proof. intros R. exact (@embed_tp_instrument R). Qed.
+Print Assumptions C07_embed_tp_instrument.
+(* ... and the condition is necessary: with at least one padded dimension, an embedded Kraus set that sums to the identity forces
+   m c' c = 1 (so a coefficient computed from the number of OUTCOMES instead of the number of Kraus operators is not trace
+   preserving as soon as some outcome has Kraus rank >= 2) *)
+Theorem C07_embed_tp_only_if : forall (R : CR) n3 k s t c' c (l : list (@mat R * @mat R)), bij (n3 + k) s t -> (0 < k)%nat ->
+  meq (n3 + k) (n3 + k) (sum_prod (n3 + k) (map (fun p => (embed_fast n3 s c' (fst p), embed_fast n3 s c (snd p))) l)) mid ->
+  nsum (length l) (cmul R c' c) = c1 R.
+Proof. intros R. exact (@embed_tp_only_if R). Qed.
+Print Assumptions C07_embed_tp_only_if.
 (* positive semidefiniteness: block diagonal + permutation congruence preserves PSD when the padding coefficient c is real and
    non-negative (0 for states, 1/m for POVM elements).  [C07_embed_psd]: complex Hermitian matrices, PSD through the real
    symmetric embedding [[A, -B], [B, A]] of Model/HermEmbed.v (the definition all physicality verdicts use);
@@ -256,15 +272,40 @@ Theorem C07_embed_psd_real : forall (F : OF) n3 k s t c (M : @mat F), bij (n3 + 
   PSD F (n3 + k) (embed_fast n3 s c M).
 Proof. exact embed_psd. Qed.
 Print Assumptions C07_embed_psd_real.
-(* the permutation of the code is a bijection of [0, 4^n), and it sends the qubit basis states without a digit 3 to the qutrit
-   basis states in order (base-3 reading of the base-4 digits), for n = 1, 2, 3 qutrits (finite evaluation, bound in the statement) *)
-Theorem C07_embed_perm_bijective_upto3 : forall n, (1 <= n <= 3)%nat -> bij (3 ^ n + (4 ^ n - 3 ^ n)) (emb_perm n) (emb_inv n).
-Proof. exact emb_perm_bij_upto3. Qed.
-Print Assumptions C07_embed_perm_bijective_upto3.
-Theorem C07_embed_perm_qutrit_states_upto3 : forall n, (1 <= n <= 3)%nat ->
-  forallb (fun a => if has3 n a then (3 ^ n <=? emb_perm n a)%nat else Nat.eqb (emb_perm n a) (base3 n a)) (seq 0 (4 ^ n)) = true.
-Proof. exact emb_perm_qutrit_states_upto3. Qed.
-Print Assumptions C07_embed_perm_qutrit_states_upto3.
+(* the permutation built by _permutation_matrix_from_qutrits_to_qubits, for EVERY number n of qutrits: closed form of the loop with
+   its two counters, bijection of [0, 4^n) (also in the block form n3 + k = 3^n + (4^n - 3^n) the theorems above use), and it sends
+   the qubit basis states without a digit 3 to the qutrit basis states in order (base-3 reading of the base-4 digits), all others
+   into [3^n, 4^n) *)
+From QV.Proofs Require Import C07_EmbedPerm.
+Theorem C07_embed_perm_closed_form : forall n a, (a < 4 ^ n)%nat ->
+  emb_perm n a = if has3 n a then (3 ^ n + cnt (has3 n) 0 a)%nat else cnt (non3 n) 0 a.
+Proof. exact emb_perm_char. Qed.
+Print Assumptions C07_embed_perm_closed_form.
+Theorem C07_embed_perm_bijective : forall n, bij (4 ^ n) (emb_perm n) (emb_inv n) /\ bij (3 ^ n + (4 ^ n - 3 ^ n)) (emb_perm n) (emb_inv n).
+Proof. intros n. split; [apply emb_perm_bij|apply emb_perm_bij_blocks]. Qed.
+Print Assumptions C07_embed_perm_bijective.
+Theorem C07_embed_perm_qutrit_states : forall n a, (a < 4 ^ n)%nat ->
+  (emb_perm n a < 4 ^ n)%nat /\
+  (if has3 n a then (3 ^ n <= emb_perm n a)%nat else emb_perm n a = base3 n a /\ (emb_perm n a < 3 ^ n)%nat).
+Proof. exact emb_perm_range. Qed.
+Print Assumptions C07_embed_perm_qutrit_states.
+
+(* ---- list-level layout of the product functions and of the list permutation (static part; the functions REGENERATED from
+   operators.py / matrix_util.py are proved equal to these list expressions on every run, coq/gen/C07_Equiv2.v):
+   the list [list_prod l1 l2] built by `for a in l1: for b in l2: append` holds at position s the pair the slot function of the
+   repaired model names (row-major w.r.t. shape (n1, n2)); "P @ list" for a permutation matrix given by its index map *)
+From QV.Model Require Import C07_PySym.
+From QV.Proofs Require Import C07_PyLemmas.
+Theorem C07_product_list_layout : forall (A B : Type) (d1 : A) (d2 : B) (l1 : list A) (l2 : list B) s, (s < length l1 * length l2)%nat ->
+  nth s (list_prod l1 l2) (d1, d2) =
+  (nth (fst (mp_slot Fixed (length l1) (length l2) s)) l1 d1, nth (snd (mp_slot Fixed (length l1) (length l2) s)) l2 d2).
+Proof. exact @list_prod_slot. Qed.
+Print Assumptions C07_product_list_layout.
+Theorem C07_convert_list_is_P_times_list : forall (old : list BinNums.Z) (s : nat -> nat) m r, (s r < m)%nat ->
+  conv_row old (fun a b => if BinInt.Z.eqb b (BinInt.Z.of_nat (s (BinInt.Z.to_nat a))) then BinNums.Zpos BinNums.xH else BinNums.Z0)
+    (map BinInt.Z.of_nat (seq 0 m)) (BinInt.Z.of_nat r) = Some (nth (s r) old BinNums.Z0).
+Proof. exact conv_row_perm. Qed.
+Print Assumptions C07_convert_list_is_P_times_list.
 
 (* ================================================================== Examples: the hypotheses are satisfiable *)
 From QV.Proofs Require Import C07_Examples.
@@ -287,12 +328,12 @@ Proof. split; [vm_compute; lia|exact (fixed_no_crash Qc_CR)]. Qed.
    padding 1/3 is PSD; the one-element Kraus set {I} with c' = c = 1 satisfies the trace-preservation hypotheses *)
 Example C07_example_embed_psd : PSD Qc_OF (3 + 1) (@embed_fast Qc_CR 3 (emb_perm 1) ex_third (@mid Qc_CR)).
 Proof. exact (C07_embed_psd_real Qc_OF 3 1 (emb_perm 1) (emb_inv 1) ex_third mid
-               (C07_embed_perm_bijective_upto3 1 (conj (le_n 1) (le_S _ _ (le_S _ _ (le_n 1))))) ex_psd_id3 ex_third_nonneg). Qed.
+               (proj2 (C07_embed_perm_bijective 1)) ex_psd_id3 ex_third_nonneg). Qed.
 (* ... and a Hermitian PSD qutrit operator with non-zero imaginary part satisfies the hypotheses of C07_embed_psd *)
 Example C07_example_embed_psd_herm :
   PSD Qc_OF ((3 + 1) + (3 + 1)) (embed Qc_OF (3 + 1) (@embed_fast (CF Qc_OF) 3 (emb_perm 1) (@zof Qc_OF ex_third) ex_herm)).
 Proof. exact (C07_embed_psd Qc_OF 3 1 (emb_perm 1) (emb_inv 1) ex_third ex_herm
-               (C07_embed_perm_bijective_upto3 1 (conj (le_n 1) (le_S _ _ (le_S _ _ (le_n 1))))) ex_herm_psd ex_third_nonneg). Qed.
+               (proj2 (C07_embed_perm_bijective 1)) ex_herm_psd ex_third_nonneg). Qed.
 Example C07_example_embed_tp :
   meq 3 3 (@sum_prod Qc_CR 3 [(mid, mid)]) mid /\ @nsum Qc_CR (length [(@mid Qc_CR, @mid Qc_CR)]) (cmul Qc_CR (c1 Qc_CR) (c1 Qc_CR)) = c1 Qc_CR.
 Proof. exact ex_tp_hyps. Qed.
